@@ -163,15 +163,6 @@ func (p *jsonPathParser) setNodeChain() {
 
 			nextNode := next.(syntaxNode)
 
-			if multiIdentifier, ok := last.(*syntaxChildMultiIdentifier); ok {
-				for _, singleIdentifier := range multiIdentifier.identifiers {
-					singleIdentifier.setNext(nextNode)
-				}
-				if multiIdentifier.isAllWildcard {
-					multiIdentifier.unionQualifier.setNext(nextNode)
-				}
-			}
-
 			last.setNext(nextNode)
 
 			last = nextNode
